@@ -708,7 +708,10 @@ def delayStmt (fuel : Nat) (m : Marker) : G Unit :=
   | 0 => fail .fuel
   | fuel+1 => do
     bump .DELAY_KW
-    let _ ← designator fuel
+    if (← at' .L_BRACK) then
+      let _ ← designator fuel
+    else
+      error "expected designator `[duration]` after `delay`"
     argListGateCallQubits fuel
     let _ ← expect .SEMICOLON
     let _ ← m.complete .DELAY_STMT
@@ -1054,7 +1057,7 @@ def arrayTypeSpec (fuel : Nat) (wantArrayRefType : Bool) : G Bool :=
         let _ ← eat .READONLY_KW
     else
       if !(← at' .ARRAY_KW) then panic "array_type_spec"
-    bumpAny
+    let _ ← expect .ARRAY_KW
     let _ ← expect .L_BRACK
     let k ← current
     if !(k == .INT_TY || k == .UINT_TY || k == .FLOAT_TY || k == .COMPLEX_TY || k == .ANGLE_TY
@@ -1690,10 +1693,13 @@ def paramTyped (fuel : Nat) (m : Marker) : G Bool :=
       m.abandon
       qOrCRegParam fuel
       return true
+    -- `false` = the current token starts neither the type nor the name: nothing below consumes a token
+    let progress ← (pure (isType (← current)) <||> at' .MUTABLE_KW <||> at' .READONLY_KW <||> at' .L_BRACK
+                    <||> at' .IDENT)
     let _ ← paramTypeSpec fuel
     varName
     let _ ← m.complete .TYPED_PARAM
-    return true
+    return progress
 termination_by structural fuel
 
 /-- params.rs `scalar_type` -/
@@ -1701,9 +1707,10 @@ def scalarType (fuel : Nat) (m : Marker) : G Bool :=
   match fuel with
   | 0 => fail .fuel
   | fuel+1 => do
+    let progress ← (pure (isType (← current)) <||> at' .L_BRACK)
     let _ ← typeSpec fuel
     let _ ← m.complete .SCALAR_TYPE
-    return true
+    return progress
 termination_by structural fuel
 
 /-- params.rs `arg_gate_call_qubit` -/
